@@ -5,6 +5,7 @@ add("C14", "checks/c14_itoa.c", ["default-plain", "default-asan", "c89-plain", "
     "draws boundary-biased 64-bit values; distinct_nontrivial counts distinct non-zero (value,function,base) keys on a 1/4099 "
     "(sweep), 1/1 (lensweep), 1/16 (wide64) subsample, i.e. a lower bound",
     exhaustive=dict(quick=False, thorough=True),
+    rule_more="sparse-decimal, decimal+binary-round and word-structured values; bases other than 2/8/10/16; flavours c89, c99, os, c89os",
     technique="differential runtime monitor: library formatter vs independent formatter over enumerated/boundary-biased values, exact-size heap buffers under ASan+UBSan, guard bytes in the -O2 build",
     level_text="exploration by execution: thorough enumerates all 2^32 32-bit values x signed/unsigned x 4 bases on the real code and 10^8 64-bit values; quick a stratified 2x10^7-value sample plus every buffer length 0..70; a universal claim over 64-bit values is sampled, not enumerated",
     level_note="trusted: the 20-line reference formatter, the compilers' sanitizer runtimes; held means held on the values executed",
